@@ -45,10 +45,13 @@ Zr-O : >0 as.buck 1000.0 0.3 32.0 >2.0 as.zero
 O-Zr2 : series 2.0 3
 U-Zr2 : series 2.0 3
 """),
-    # 3: a second file that re-uses the form names f and g with different bodies, and overrides a built-in element
+    # 3: a second file that re-uses the form names f and g with different bodies and the table-form name tf with different data
+    # (and another interpolation-free spelling of its data), and overrides a built-in element
     3: dict(targets=["LAMMPS", "setfl", "excel"], text="""[Potential-Form]
 g(r, a) = a / (r + 2)
 f(r, a, b) = g(r, b) * a + b
+[Table-Form:tf]
+xy : 0.0 1.0  1.0 4.0  2.0 2.0  3.0 6.5  4.0 7.0  6.0 0.5
 [Species]
 Cu.atomic_mass : 99.5
 Cu.lattice_constant : 3.61
@@ -61,6 +64,7 @@ Cu : as.bornmayer 5.0 0.7
 Cu-Cu : f 1.0 2.0
 O-O : f 2.0 1.0
 Zr-O : >0 as.buck 1000.0 0.3 32.0 >3.0 as.constant 1
+Zr-Zr : sum(tf, as.constant 0.25)
 """),
     4: dict(targets=["setfl_fs", "DL_POLY_EAM_fs"], text="""[EAM-Embed]
 Fe : as.sqrt -1.0
